@@ -369,6 +369,42 @@ fn run(ctx: &Ctx, out: &mut Out) {
                 continue;
             }
         };
+        // the environment's own accessors return what was supplied
+        {
+            let label = || format!("env[{ename}] accessors tx / ix / control_block / annex / genesis_hash");
+            if ctx.begin(leg, &label) {
+                out.evaluations += 1;
+                out.states += 1;
+                out.transitions += 5;
+                let want_annex = spec.inputs.get(spec.ix as usize).and_then(|i| i.annex.clone());
+                let r = guard(|| {
+                    use simplicity::bitcoin::hashes::Hash as _;
+                    let e = &b.env;
+                    if *e.tx() != *b.tx {
+                        return Some("tx() is not the supplied transaction");
+                    }
+                    if e.ix() != spec.ix {
+                        return Some("ix() is not the supplied index");
+                    }
+                    if e.control_block().serialize() != b.control_block_bytes {
+                        return Some("control_block() is not the supplied control block");
+                    }
+                    if e.annex().cloned() != want_annex {
+                        return Some("annex() is not the supplied annex");
+                    }
+                    if e.genesis_hash().to_byte_array() != b.genesis {
+                        return Some("genesis_hash() is not the supplied hash");
+                    }
+                    None
+                });
+                match r {
+                    Ok(None) => out.outcome("accessors:ok"),
+                    Ok(Some(d)) => out.violation("field:accessor", leg, label(), d.into()),
+                    Err(p) => out.violation(&panic_class(&p), leg, label(), p),
+                }
+                ctx.end();
+            }
+        }
         for (jet, arg) in jets_and_args(&b) {
             let label = || format!("env[{ename}] {jet}({arg:?})");
             if !ctx.begin(leg, &label) {
